@@ -52,7 +52,7 @@ pub fn info() -> PropertyInfo {
         workers_quick: 8,
         workers_thorough: 16,
         address_space_limit: 4 << 30,
-        watchdog_quick_s: 1200,
+        watchdog_quick_s: 3600,
         watchdog_thorough_s: 10800,
         run,
     }
@@ -377,11 +377,23 @@ pub fn materialize(mut c: Case) -> Case {
     c
 }
 
+/// Like `engine::tape::tape_strategy` (same word mix) but with a minimum length: the
+/// extension is a long consumer, and a reader that runs out of tape answers 0 to every choice.
+fn long_tape(min_len: usize, max_len: usize) -> impl Strategy<Value = Tape> {
+    let word = prop_oneof![
+        3 => any::<u32>(),
+        1 => (0u32..16).prop_map(|v| v << 28),
+        1 => Just(0u32),
+        1 => Just(u32::MAX),
+    ];
+    proptest::collection::vec(word, min_len..max_len).prop_map(|data| Tape { data })
+}
+
 pub fn case_strategy(mode: &'static str) -> impl Strategy<Value = Case> {
     (
         tape_strategy(700),
         tape_strategy(80),
-        prop_oneof![3 => tape_strategy(400), 1 => Just(Tape { data: vec![] })],
+        prop_oneof![3 => long_tape(900, 2600), 1 => Just(Tape { data: vec![] })],
         tape_strategy(24),
         0u8..8,
     )
